@@ -288,6 +288,12 @@ def eval_doc(ctx, case):
                 f.write(ser_v2("P" + key, "1", rows))
             base_urls[key] = f"https://ex.org/{key}"
             cfg[key] = [base_urls[key], p]
+        for alias, orig in (case.get("same_file") or {}).items():
+            # a second inventory key that points at the SAME file under another base URL (one objects.inv published as /stable and /latest)
+            if orig in cfg and alias not in cfg:
+                rows_by_key[alias] = rows_by_key[orig]
+                base_urls[alias] = f"https://mirror.example/{alias}/v2"
+                cfg[alias] = [base_urls[alias], cfg[orig][1]]
         lines, expect = [], []
         for i, lk in enumerate(case["links"]):
             path = ":".join(x for x in [lk["inv"] or "", lk["dom"] or "", lk["type"] or ""]).rstrip(":")
@@ -393,7 +399,17 @@ def gen_doc(rng):
             lk["inv"] = "*"
         if lk["text"]:
             lk["auto"] = False
-    return {"kind": "doc", "invs": invs, "links": links}
+    case = {"kind": "doc", "invs": invs, "links": links}
+    if rng.random() < 0.35:
+        orig = rng.choice(sorted(invs))
+        alias = rng.choice(["zz-alias", "a-alias", "k9"])
+        case["same_file"] = {alias: orig}
+        for lk in links:
+            if rng.random() < 0.4:
+                lk["inv"] = rng.choice([alias, orig, alias[:2] + "*"])
+                if lk["inv"] is not None and False:
+                    pass
+    return case
 
 
 # ---------------------------------------------------------------------------------- CLI
